@@ -89,12 +89,39 @@ func SortedEntries(kb *ast.KnowledgeBase) []*ast.RuleEntry {
 	return es
 }
 
-// MemoDump renders retract/delete flags and the memo state (Evaluated + remembered value) of
-// every Expression / ExpressionAtom reachable from the knowledge base's rule entries.
-func MemoDump(kb *ast.KnowledgeBase) string {
+// MemoSet is the list of memo cells (Evaluated flag + remembered value) of one instance,
+// collected once (the graph's shape does not change during a run) in deterministic order.
+type MemoSet struct {
+	kb    *ast.KnowledgeBase
+	es    []*ast.RuleEntry
+	evs   []*bool
+	vals  []*reflect.Value
+}
+
+func NewMemoSet(kb *ast.KnowledgeBase) *MemoSet {
+	ms := &MemoSet{kb: kb, es: SortedEntries(kb)}
+	WalkGraph(reflect.ValueOf(ms.es), func(n Node) {
+		ev := n.Val.FieldByName("Evaluated")
+		if !ev.IsValid() || ev.Kind() != reflect.Bool || !ev.CanAddr() {
+			return
+		}
+		val := n.Val.FieldByName("Value")
+		var vp *reflect.Value
+		if val.IsValid() && val.CanAddr() {
+			if p, ok := val.Addr().Interface().(*reflect.Value); ok {
+				vp = p
+			}
+		}
+		ms.evs = append(ms.evs, ev.Addr().Interface().(*bool))
+		ms.vals = append(ms.vals, vp)
+	})
+	return ms
+}
+
+// Dump renders retract/delete flags and the memo state.
+func (ms *MemoSet) Dump() string {
 	var b strings.Builder
-	es := SortedEntries(kb)
-	for _, re := range es {
+	for _, re := range ms.es {
 		name := re.RuleName
 		if re.Deleted {
 			name = "<deleted>"
@@ -102,25 +129,22 @@ func MemoDump(kb *ast.KnowledgeBase) string {
 		fmt.Fprintf(&b, "R[%s r=%v d=%v]", name, re.Retracted, re.Deleted)
 	}
 	b.WriteString("|")
-	idx := 0
-	WalkGraph(reflect.ValueOf(es), func(n Node) {
-		ev := n.Val.FieldByName("Evaluated")
-		if !ev.IsValid() || ev.Kind() != reflect.Bool {
-			return
-		}
-		idx++
-		if !ev.Bool() {
+	for i, ev := range ms.evs {
+		if !*ev {
 			b.WriteString("-")
-			return
+			continue
 		}
-		val := n.Val.FieldByName("Value")
 		s := "?"
-		if val.IsValid() {
-			if rv, ok := val.Interface().(reflect.Value); ok {
-				s = ref.FromReflect(rv).String()
-			}
+		if ms.vals[i] != nil {
+			s = ref.FromReflect(*ms.vals[i]).String()
 		}
-		fmt.Fprintf(&b, "[%d=%s]", idx, s)
-	})
+		fmt.Fprintf(&b, "[%d=%s]", i, s)
+	}
 	return b.String()
 }
+
+// NCells returns the number of memo cells.
+func (ms *MemoSet) NCells() int { return len(ms.evs) }
+
+// MemoDump is a one-shot MemoSet dump.
+func MemoDump(kb *ast.KnowledgeBase) string { return NewMemoSet(kb).Dump() }
